@@ -23,6 +23,7 @@ RULE = (
     ' In half the cases the generator handed over is a PCG64 whose stream repeats words at drawn positions (vf.randomctl.StutterGenerator).'
     ' Also: every plate-size limit 1 .. 420 (thorough 2100) with samples of m, m-1, 2m, k*m, k*m+1 experiments (sample-segregating generator, fixed-size smoother).'
     ' Also: fixed screens with 42 .. 500 samples, most of them with a single unobserved plate.'
+    ' The sparse cover also runs on the fully observed screen carrying the id table of a screen with one more treatment.'
 )
 ASSUMPTIONS = [
     "guarantees are asserted on the unobserved plates of the returned screen (the observed part passes through: C11)",
@@ -305,38 +306,51 @@ def check_case(case):
     for csc in (sc_any, case.get("filter_screen")):
       if csc is None:
         continue
-      full = S.build_screen(dict(csc, observed=sorted({r["p"] for r in csc["rows"]})))
+      csc_obs = dict(csc, observed=sorted({r["p"] for r in csc["rows"]}))
+      fulls = [S.build_screen(csc_obs)]
+      if csc["rows"]:
+          # ... and the same fully observed screen carrying the id tables of a larger screen in which ONE more treatment occurs (what
+          # the hold-out helpers and sub-screens hand on): ids are then not the dense range of the treatments present
+          r0 = csc["rows"][seed % len(csc["rows"])]
+          extra_name = ["a_absent", "zz_absent", r0["t"][0]][seed % 3]
+          extra_dose = 7.25 if extra_name == r0["t"][0] else 1.0
+          sup_ = S.build_screen(dict(csc_obs, observed=[]), rows=csc["rows"] + [dict(r0, t=[extra_name] + list(r0["t"][1:]), d=[extra_dose] + list(r0["d"][1:]), p=r0["p"])])
+          try:
+              fulls.append(S.build_screen(csc_obs, treatment_mapping=sup_.treatment_mapping, sample_mapping=sup_.sample_mapping))
+          except ValueError:
+              pass
       flag = case["cover_flag"]
-      out = _run("SparseCover", lambda: _mk(R.SparseCoverPlateGenerator, reveal_single_treatment_experiments=flag).generate_and_unmask_initial_plate(full, randomctl.make_rng(seed, case.get("stutter"))), labels)
-      if out is not None:
-          labels.append("ran:SparseCover")
-          require(out.size == full.size, "cover.size", "sparse cover changed the number of experiments")
-          mask = np.asarray(out.observation_mask)
-          require(mask.any(), "cover.nonempty", "nothing observed")
-          need_s = set(str(x) for x in full.sample_names)
-          got_s = set(str(out.sample_names[i]) for i in range(out.size) if mask[i])
-          require(got_s == need_s, "cover.every_sample", lambda: "samples without an observed experiment: %r" % sorted(need_s - got_s))
-          ctl = sc["control"]
-          def conds(s, rows):
-              c = set()
-              for i in rows:
-                  for n_, d_ in zip(s.treatment_names[i], s.treatment_doses[i]):
-                      if not (str(n_) == ctl or float(d_) <= 0):
-                          c.add((str(n_), float(d_)))
-              return c
-          need_t = conds(full, range(full.size))
-          got_t = conds(out, [i for i in range(out.size) if mask[i]])
-          require(got_t == need_t, "cover.every_treatment", lambda: "treatments without an observed experiment: %r" % sorted(need_t - got_t))
-          rest = {str(out.plate_names[i]) for i in range(out.size) if not mask[i]}
-          require(len(rest) <= 1, "cover.one_unobserved_plate", lambda: "unobserved experiments are spread over plates %r" % sorted(rest))
-          obs_pl = {str(out.plate_names[i]) for i in range(out.size) if mask[i]}
-          require(not (rest & obs_pl), "cover.plates_disjoint", "observed and unobserved experiments share a plate")
-          if flag:
-              for i in range(out.size):
-                  has_ctl = any(str(n_) == ctl or float(d_) <= 0 for n_, d_ in zip(out.treatment_names[i], out.treatment_doses[i]))
-                  require(mask[i] or not has_ctl, "cover.single_agent_revealed", lambda: "row %d contains a control but is not observed" % i)
+      for full in fulls:
+       out = _run("SparseCover", lambda: _mk(R.SparseCoverPlateGenerator, reveal_single_treatment_experiments=flag).generate_and_unmask_initial_plate(full, randomctl.make_rng(seed, case.get("stutter"))), labels)
+       if out is not None:
+           labels.append("ran:SparseCover")
+           require(out.size == full.size, "cover.size", "sparse cover changed the number of experiments")
+           mask = np.asarray(out.observation_mask)
+           require(mask.any(), "cover.nonempty", "nothing observed")
+           need_s = set(str(x) for x in full.sample_names)
+           got_s = set(str(out.sample_names[i]) for i in range(out.size) if mask[i])
+           require(got_s == need_s, "cover.every_sample", lambda: "samples without an observed experiment: %r" % sorted(need_s - got_s))
+           ctl = sc["control"]
+           def conds(s, rows):
+               c = set()
+               for i in rows:
+                   for n_, d_ in zip(s.treatment_names[i], s.treatment_doses[i]):
+                       if not (str(n_) == ctl or float(d_) <= 0):
+                           c.add((str(n_), float(d_)))
+               return c
+           need_t = conds(full, range(full.size))
+           got_t = conds(out, [i for i in range(out.size) if mask[i]])
+           require(got_t == need_t, "cover.every_treatment", lambda: "treatments without an observed experiment: %r" % sorted(need_t - got_t))
+           rest = {str(out.plate_names[i]) for i in range(out.size) if not mask[i]}
+           require(len(rest) <= 1, "cover.one_unobserved_plate", lambda: "unobserved experiments are spread over plates %r" % sorted(rest))
+           obs_pl = {str(out.plate_names[i]) for i in range(out.size) if mask[i]}
+           require(not (rest & obs_pl), "cover.plates_disjoint", "observed and unobserved experiments share a plate")
+           if flag:
+               for i in range(out.size):
+                   has_ctl = any(str(n_) == ctl or float(d_) <= 0 for n_, d_ in zip(out.treatment_names[i], out.treatment_doses[i]))
+                   require(mask[i] or not has_ctl, "cover.single_agent_revealed", lambda: "row %d contains a control but is not observed" % i)
 
-    # ---- combination filter (on the case's layout and on a small screen of its own)
+     # ---- combination filter (on the case's layout and on a small screen of its own)
     for fsc in (sc_any, case.get("filter_screen")):
       if fsc is None:
         continue
